@@ -20,6 +20,8 @@ class RawPeer:
         self.sent = 0
         self.budget = None   # stop sending (stall) after this many bytes
         self.stalled = False
+        self.split_at = None  # absolute stream offset at which one send is cut in two
+        self.split_gap = 0.0
 
     # -- connection -------------------------------------------------------------
     def connect(self, port=11112):
@@ -62,7 +64,15 @@ class RawPeer:
                 data = data[:left]
                 self.stalled = True
         try:
-            self.sock.sendall(data)
+            if self.split_at is not None and self.sent < self.split_at < self.sent + len(data):
+                # two-chunk split of the peer's byte stream at an absolute offset, with a gap
+                k = self.split_at - self.sent
+                self.sock.sendall(data[:k])
+                self.sim.count("fault.seg")
+                self.sim.sleep(self.split_gap)
+                self.sock.sendall(data[k:])
+            else:
+                self.sock.sendall(data)
             self.sent += len(data)
             return not self.stalled
         except OSError as e:
